@@ -38,3 +38,54 @@ fn c07_f128_inv_zero() {
     assert!(z.inv() == f128::BaseElement::ZERO);
     kani::cover!(which == 1);
 }
+
+// ---- exponentiation: corner cases with a symbolic exponent, real field code (the loop bodies see constants only) ---------------
+// base ZERO: 0^0 = 1 and 0^p = 0 for p > 0; base ONE: 1^p = 1 -- for EVERY exponent of the field's PositiveInteger type, through
+// both `exp` (constant-time variant where the field has one) and `exp_vartime`.
+macro_rules! c07_exp_corner {
+    ($name:ident, $F:ty, $int:ty, $unwind:expr) => {
+        #[kani::proof]
+        #[kani::unwind($unwind)]
+        #[kani::stub(alloc::fmt::format, nofmt)]
+        fn $name() {
+            let p: $int = kani::any();
+            let zero = <$F>::ZERO;
+            let one = <$F>::ONE;
+            let want = if p == 0 { one } else { zero };
+            assert!(zero.exp_vartime(p) == want);
+            assert!(zero.exp(p) == want);
+            assert!(one.exp_vartime(p) == one);
+            assert!(one.exp(p) == one);
+            kani::cover!(p == 0);
+            kani::cover!(p > 1);
+        }
+    };
+}
+// @ob id=C07 tier=quick req=1 to=900 name=c07_f64_exp_corner funcs="f64::BaseElement::{exp,exp_vartime}" bounds="bases ZERO and ONE; exponent any u64" sym="the exponent (full 64 bits)" desc="0^0 = 1, 0^p = 0 (p > 0), 1^p = 1"
+c07_exp_corner!(c07_f64_exp_corner, f64::BaseElement, u64, 66);
+// @ob id=C07 tier=quick req=1 to=900 name=c07_f62_exp_corner funcs="f62::BaseElement::{exp,exp_vartime}" bounds="bases ZERO and ONE; exponent any u64" sym="the exponent (full 64 bits)" desc="0^0 = 1, 0^p = 0 (p > 0), 1^p = 1"
+c07_exp_corner!(c07_f62_exp_corner, f62::BaseElement, u64, 66);
+// @ob id=C07 tier=quick req=1 to=1200 name=c07_f128_exp_corner funcs="f128::BaseElement::{exp,exp_vartime}" bounds="bases ZERO and ONE; exponent any u128" sym="the exponent (full 128 bits)" desc="0^0 = 1, 0^p = 0 (p > 0), 1^p = 1"
+c07_exp_corner!(c07_f128_exp_corner, f128::BaseElement, u128, 130);
+
+// the GENERIC default `exp_vartime` / `exp` of the FieldElement trait, instantiated at the toy field F_257: equal to repeated
+// multiplication for every base and every exponent below 32
+// @ob id=C07 tier=quick req=1 to=900 funcs="FieldElement::exp_vartime (default method),FieldElement::exp (default method)" bounds="toy field F_257 instantiation of the trait's default methods; exponent < 32" sym="base (all 257 values), exponent" desc="exp_vartime(x, p) = x * x * ... * x (p factors), exp = exp_vartime"
+#[kani::proof]
+#[kani::unwind(34)]
+#[kani::stub(alloc::fmt::format, nofmt)]
+fn c07_generic_exp_toy() {
+    use crate::toy::T;
+    let v: u16 = kani::any();
+    kani::assume(v < 257);
+    let x = T(v);
+    let p: u64 = kani::any();
+    kani::assume(p < 32);
+    let mut naive = T::ONE;
+    let mut i = 0;
+    while i < 32 { if i < p { naive = naive * x; } i += 1; }
+    assert!(x.exp_vartime(p) == naive);
+    assert!(x.exp(p) == naive);
+    kani::cover!(p == 31 && v == 3);
+    kani::cover!(p == 0 && v == 0);
+}
